@@ -6,6 +6,7 @@ symbolic, for the classes that use `_Event.__init__` unchanged: the push-button 
 light-sensor event (10-bit illuminance written over the information field).  Every such class is traced and
 must yield the family's tree.  `Tie/Event.lean` proves the trees equal to the model's `newFrame` +
 `eventSrcToFrame` (+ the data write) for every field value."""
+from common import exc_name  # noqa: E402
 import random
 
 import symtrace as st
@@ -76,7 +77,7 @@ def generate(repo):
                     try:
                         want = ('ok', _real(c, kws, with_data, env))
                     except Exception as e:  # noqa
-                        want = ('raise', type(e).__name__)
+                        want = ('raise', exc_name(e))
                     if with_data and want[0] == 'ok':
                         # LightEvent stores the data as its event information: the frame starts from the class's code
                         pass
